@@ -143,7 +143,7 @@ func cmdShow(name, engine string) int {
 			probes = append(probes, k)
 		}
 	}
-	sp := &Spec{ID: "show", Order: OrderPlan{Mode: envStr("VERIF_ORDER", "canon")}, Tasks: [][]Op{docOps(sc, Cfg{Engine: engine, Zoom: 1, Probes: probes}, "", true)}, Detail: os.Getenv("VERIF_DETAIL") != ""}
+	sp := &Spec{ID: "show", Order: OrderPlan{Mode: envStr("VERIF_ORDER", "canon")}, Tasks: [][]Op{docOps(sc, Cfg{Engine: engine, Zoom: 1, Probes: probes, Hints: os.Getenv("VERIF_HINTS") != ""}, "", true)}, Detail: os.Getenv("VERIF_DETAIL") != ""}
 	sp.Budget = 400000000
 	if b, err := strconv.ParseUint(os.Getenv("VERIF_BUDGET"), 10, 64); err == nil {
 		sp.Budget = b
